@@ -7,6 +7,7 @@
 # Contact: Kyle Lahnakoski (kyle@lahnakoski.com)
 #
 import os
+from _thread import allocate_lock
 from copy import copy
 
 from mo_dots import is_list, to_data, from_data
@@ -29,6 +30,16 @@ del context["copy"]
 DEBUG = False
 DONE = value2json({"out": {}}).encode("utf8") + b"\n"
 please_stop = Signal()
+stdout_lock = allocate_lock()
+
+
+def write_line(data):
+    """
+    ONE MESSAGE, ONE LINE: THE LOGGING THREAD WRITES TO STDOUT TOO, AND MUST NOT LAND INSIDE AN ANSWER
+    """
+    line = value2json(data).encode("utf8") + b"\n"
+    with stdout_lock:
+        STDOUT.write(line)
 
 
 def command_loop(local):
@@ -52,28 +63,23 @@ def command_loop(local):
                     line = f"from {command['import']['from']} import " + ",".join(listwrap(command["import"]["vars"]))
                 DEBUG and logger.info("exec {line}", line=line)
                 exec(line, dummy, context)
-                STDOUT.write(DONE)
+                write_line({"out": {}})
             elif "ping" in command:
-                STDOUT.write(DONE)
+                write_line({"out": {}})
             elif "set" in command:
                 for k, v in from_data(command)["set"].items():  # Data.items() SKIPS null VALUES
                     context[k] = v
-                STDOUT.write(DONE)
+                write_line({"out": {}})
             elif "get" in command:
-                STDOUT.write(
-                    value2json({"out": coalesce(
-                        local.get(command["get"]), context.get(command["get"])
-                    )}).encode("utf8")
-                )
-                STDOUT.write(b"\n")
+                write_line({"out": coalesce(local.get(command["get"]), context.get(command["get"]))})
             elif "stop" in command:
-                STDOUT.write(DONE)
+                write_line({"out": {}})
                 please_stop.go()
             elif "exec" in command:
                 if not isinstance(command["exec"], str):
                     logger.error("exec expects only text")
                 exec(command["exec"], context, local)
-                STDOUT.write(DONE)
+                write_line({"out": {}})
             else:
                 for k, v in from_data(command).items():
                     # PASS THE ARGUMENTS AS VALUES: JSON TEXT (true, false, null) IS NOT PYTHON SOURCE
@@ -82,12 +88,10 @@ def command_loop(local):
                         local["_return"] = func(*v)
                     else:
                         local["_return"] = func(**v)
-                    STDOUT.write(value2json({"out": local["_return"]}).encode("utf8"))
-                    STDOUT.write(b"\n")
+                    write_line({"out": local["_return"]})
         except Exception as cause:
             cause = Except.wrap(cause)
-            STDOUT.write(value2json({"err": cause}).encode("utf8"))
-            STDOUT.write(b"\n")
+            write_line({"err": cause})
         finally:
             STDOUT.flush()
             STDERR.flush()
@@ -106,7 +110,7 @@ def temp_var():
 
 class RawLogger(StructuredLogger):
     def write(self, template, params):
-        STDOUT.write(value2json({"log": {"template": template, "params": params}}).encode("utf8") + b"\n")
+        write_line({"log": {"template": template, "params": params}})
 
 
 def start():
